@@ -335,9 +335,12 @@ impl Expr {
                     if let Some(ty) = ty {
                         let ty = ty.disregard_distractors(false);
 
-                        if ty.is_optional().1.is_some() && fallback.is_optional().1.is_some() {
+                        if ty.is_optional().1.is_some()
+                            && fallback.is_optional().1.is_some()
+                            && !ty.eq_complex(&fallback, flags)
+                        {
                             // only check if neither of the operands is `nil`
-                            assert_eq!(ty, &fallback);
+                            bail!("the fallback of this `or` has type `{fallback}`, which is not compatible with `{ty}`");
                         }
 
                         ty.clone()
@@ -346,10 +349,11 @@ impl Expr {
                         fallback
                     }
                 } else {
-                    assert_eq!(
-                        primary.disregard_distractors(false),
-                        fallback.disregard_distractors(false)
-                    );
+                    // the same relation the parser used when it accepted the expression
+                    // (structural equality is too strict: `str` types carry their length)
+                    if !primary.eq_complex(&fallback, flags) {
+                        bail!("the fallback of this `or` has type `{fallback}`, which is not compatible with `{primary}`");
+                    }
                     primary
                 })
             }
